@@ -147,6 +147,22 @@ class Ctx:
         wall = time.time() - self.t0
         cov = self.cov
         cov["known_findings_hit"] = [k for k, _ in self.known_hits]
+        # keep the evidence file valid against EVIDENCE.schema.json whatever a check stored
+        if "exhaustive" in cov and not isinstance(cov["exhaustive"], bool):
+            cov["exhaustive_detail"] = cov.pop("exhaustive")
+        for k in ("evaluations", "distinct_nontrivial", "obligations", "discharged", "states", "transitions",
+                  "traces_validated_against_impl", "programs", "disagreements_checked"):
+            if k in cov and not isinstance(cov[k], int):
+                try:
+                    cov[k] = int(cov[k])
+                except (TypeError, ValueError):
+                    cov[k + "_detail"] = cov.pop(k)
+        if not isinstance(cov.get("samples"), list):
+            cov["samples"] = [cov.get("samples")]
+        if not cov["samples"]:
+            cov["samples"] = ["(no case was generated in this run)"]
+        cov["trusted_base"] = [str(x) for x in cov.get("trusted_base", [])]
+        self.assumptions = [str(x) for x in self.assumptions]
         cov.update(self.notes)
         ev = {
             "property_id": self.pid,
